@@ -13,6 +13,7 @@ package main
 
 import (
 	"fmt"
+	"go/token"
 	"go/types"
 	"sort"
 	"strings"
@@ -102,6 +103,9 @@ type lsAnalysis struct {
 	acquires map[*ssa.Function]map[string]bool // lock classes a function may acquire (transitively)
 	res      *locksetResult
 	reach    map[*ssa.Function]bool
+	// paramCallLocks: for a pike function H and the index of one of its func-typed parameters, the locks
+	// (named by H's own parameters) held at every place H calls that parameter: `withLock(fn)` helpers
+	paramCallLocks map[*ssa.Function]map[int]lockState
 }
 
 // accessPath names the object a pointer value denotes, stable within a function.
@@ -212,7 +216,7 @@ func isFreshBase(v ssa.Value, p *Program, depth int) bool {
 
 func (p *Program) newLockset() *lsAnalysis {
 	a := &lsAnalysis{p: p, guards: map[*types.Var]*types.Var{}, needW: map[*types.Var]bool{}, mutexes: map[*types.Var]string{},
-		reqs: map[*ssa.Function][]lockReq{}, acquires: map[*ssa.Function]map[string]bool{}, res: &locksetResult{orderEdges: map[string]map[string]string{}}}
+		reqs: map[*ssa.Function][]lockReq{}, acquires: map[*ssa.Function]map[string]bool{}, paramCallLocks: map[*ssa.Function]map[int]lockState{}, res: &locksetResult{orderEdges: map[string]map[string]string{}}}
 	for _, g := range guardTable {
 		nt := p.NamedType(g.pkg, g.typ)
 		if nt == nil {
@@ -364,6 +368,12 @@ func (a *lsAnalysis) analyzeFunc(fn *ssa.Function, final bool) bool {
 	in := map[*ssa.BasicBlock]lockState{}
 	in[fn.Blocks[0]] = lockState{}
 	deferredUnlock := map[string]bool{}
+	// a function literal handed to a helper that calls it with a lock held starts with that lock
+	for base, mode := range a.literalEntryLocks(fn) {
+		in[fn.Blocks[0]][base] = mode
+		deferredUnlock[base] = true // released by the helper, not by the literal
+	}
+	paramLocks := map[int]lockState{}
 	work := []*ssa.BasicBlock{fn.Blocks[0]}
 	seenBlock := map[*ssa.BasicBlock]bool{}
 	var reqs []lockReq
@@ -430,6 +440,26 @@ func (a *lsAnalysis) analyzeFunc(fn *ssa.Function, final bool) bool {
 				cc := x.Common()
 				if _, isGo := ins.(*ssa.Go); isGo {
 					continue
+				}
+				if prm, ok := cc.Value.(*ssa.Parameter); ok && !cc.IsInvoke() && check {
+					if _, isDefer := ins.(*ssa.Defer); !isDefer {
+						for i, pp := range fn.Params {
+							if pp != prm {
+								continue
+							}
+							held := lockState{}
+							for base, mode := range st {
+								if strings.HasPrefix(base, "p") && !strings.ContainsAny(base, ".*[") {
+									held[base] = mode
+								}
+							}
+							if old, seen := paramLocks[i]; seen {
+								paramLocks[i] = meetLocks(old, held)
+							} else {
+								paramLocks[i] = held
+							}
+						}
+					}
 				}
 				if base, mu, mode, acquire, ok := a.lockCall(cc); ok {
 					cls := a.mutexes[mu]
@@ -544,6 +574,18 @@ func (a *lsAnalysis) analyzeFunc(fn *ssa.Function, final bool) bool {
 		}
 	}
 	changed := false
+	if len(paramLocks) > 0 || len(a.paramCallLocks[fn]) > 0 {
+		oldPL := a.paramCallLocks[fn]
+		if len(oldPL) != len(paramLocks) {
+			changed = true
+		}
+		for i, ls := range paramLocks {
+			if o, ok := oldPL[i]; !ok || !o.equal(ls) {
+				changed = true
+			}
+		}
+		a.paramCallLocks[fn] = paramLocks
+	}
 	old := a.reqs[fn]
 	if len(old) != len(reqs) {
 		changed = true
@@ -555,6 +597,77 @@ func (a *lsAnalysis) analyzeFunc(fn *ssa.Function, final bool) bool {
 	}
 	a.acquires[fn] = acq
 	return changed
+}
+
+// literalEntryLocks: fn is a function literal every use of which is as an argument of a pike function that calls
+// that parameter only with some of its own parameters' locks held; the result names those locks as the literal
+// sees the objects (through its free variables).
+func (a *lsAnalysis) literalEntryLocks(fn *ssa.Function) lockState {
+	parent := fn.Parent()
+	if parent == nil {
+		return nil
+	}
+	var result lockState
+	uses := 0
+	for _, b := range parent.Blocks {
+		for _, ins := range b.Instrs {
+			mc, ok := ins.(*ssa.MakeClosure)
+			if !ok || mc.Fn != ssa.Value(fn) {
+				continue
+			}
+			for _, r := range *mc.Referrers() {
+				uses++
+				ci, ok := r.(ssa.CallInstruction)
+				if !ok {
+					return nil
+				}
+				if _, isGo := r.(*ssa.Go); isGo {
+					return nil
+				}
+				cc := ci.Common()
+				sc := cc.StaticCallee()
+				if sc == nil || !isPikeFunc(sc) || cc.Value == ssa.Value(mc) {
+					return nil
+				}
+				here := lockState{}
+				found := false
+				for k, arg := range cc.Args {
+					if arg != ssa.Value(mc) {
+						continue
+					}
+					found = true
+					for base, mode := range a.paramCallLocks[sc][k] {
+						var idx int
+						if _, err := fmt.Sscanf(base, "p%d", &idx); err != nil || idx >= len(cc.Args) {
+							continue
+						}
+						// the object whose lock is held, as the literal names it
+						obj := cc.Args[idx]
+						for j, bind := range mc.Bindings {
+							if ld, ok := obj.(*ssa.UnOp); ok && ld.Op == token.MUL && ld.X == bind {
+								here[fmt.Sprintf("*fv%d", j)] = mode
+							}
+							if obj == bind {
+								here[fmt.Sprintf("fv%d", j)] = mode
+							}
+						}
+					}
+				}
+				if !found {
+					return nil
+				}
+				if result == nil {
+					result = here
+				} else {
+					result = meetLocks(result, here)
+				}
+			}
+		}
+	}
+	if uses == 0 {
+		return nil
+	}
+	return result
 }
 
 func (s lockState) String() string {
